@@ -1049,6 +1049,7 @@ pub fn gen_cap_server(tapes: &[Vec<u32>]) -> RawCase {
     let mut ops: Vec<CapOp> = Vec::new();
     let mut grant = *t.pick(&[Grant::Eager, Grant::Threshold(10000), Grant::Drip(500)]);
     let mut item = "truth";
+    let mut blind_waiter: Option<(usize, usize)> = None;
     if settings_variant {
         // no connection-level grant ever; several streams hold assigned capacity when the peer lowers (and later
         // restores) SETTINGS_INITIAL_WINDOW_SIZE: what is taken from them must come back to the pool
@@ -1142,13 +1143,19 @@ pub fn gen_cap_server(tapes: &[Vec<u32>]) -> RawCase {
             ops.push(CapOp::Census);
         }
         let nb = 1 + t.below(30000);
-        ops.push(CapOp::Reserve { s: b, n: nb });
+        // B either asks for capacity and waits, or has written its data blindly (buffered: A holds the whole window)
+        let blind_b = t.chance(1, 3);
+        if blind_b {
+            ops.push(CapOp::Send { s: b, n: nb });
+        } else {
+            ops.push(CapOp::Reserve { s: b, n: nb });
+        }
         ops.push(CapOp::Yield(t.below(5)));
         // A may have data buffered (flushed or not) when it gives its capacity back
         let presend = t.chance(1, 2);
         let mut sent_a = 0usize;
         if presend {
-            sent_a = 1 + t.below(60000);
+            sent_a = 1 + t.below(if blind_b { 30000 } else { 60000 });
             ops.push(CapOp::Send { s: a, n: sent_a });
             if t.bool() {
                 ops.push(CapOp::Yield(t.below(4)));
@@ -1183,14 +1190,20 @@ pub fn gen_cap_server(tapes: &[Vec<u32>]) -> RawCase {
                 item = "return:drop";
             }
         }
-        ops.push(CapOp::WaitCap { s: b });
-        ops.push(CapOp::SendCap { s: b });
-        ops.push(CapOp::Census);
-        // conservation probe: B asks for far more than there is; what it is assigned (plus what A still holds) is
-        // all the connection window that is not on the wire
-        ops.push(CapOp::Reserve { s: b, n: 1 << 20 });
-        ops.push(CapOp::Yield(300));
-        ops.push(CapOp::CensusFinal);
+        if blind_b {
+            // nothing else happens: the capacity A gave back must carry B's buffered data to the wire by itself
+            blind_waiter = Some((b, nb));
+            ops.push(CapOp::StopHere);
+        } else {
+            ops.push(CapOp::WaitCap { s: b });
+            ops.push(CapOp::SendCap { s: b });
+            ops.push(CapOp::Census);
+            // conservation probe: B asks for far more than there is; what it is assigned (plus what A still holds) is
+            // all the connection window that is not on the wire
+            ops.push(CapOp::Reserve { s: b, n: 1 << 20 });
+            ops.push(CapOp::Yield(300));
+            ops.push(CapOp::CensusFinal);
+        }
         script.push(PStep::Yield(900));
     } else {
         // phase 1: anything goes while the peer grants normally
@@ -1248,7 +1261,7 @@ pub fn gen_cap_server(tapes: &[Vec<u32>]) -> RawCase {
     let spec = RawSpec { peer_settings: vec![(4, if zero_start { 0 } else { peer_iw })], script, grant, close_at_end: true };
     let mut b = base(&mut t, tapes, cfg, vec![]);
     b.cap = Some(CapProgram { streams: k, ops });
-    let inj = Inject { item: item.into(), state: format!("{}-streams", k), class: Class::Either, stream: 0, basis: "SendStream::{reserve_capacity, capacity, poll_capacity} documentation".into(), never_surface: vec![], must_deliver: vec![], must_deliver_streams: vec![], no_head: vec![], no_clean_end: vec![], prop: "C16".into(), wire_optional: true };
+    let inj = Inject { item: item.into(), state: format!("{}-streams", k), class: Class::Either, stream: 0, basis: "SendStream::{reserve_capacity, capacity, poll_capacity} documentation".into(), never_surface: vec![], must_deliver: vec![], must_deliver_streams: blind_waiter.map(|(sx, n)| vec![(2 * sx as u32 + 1, n)]).unwrap_or_default(), no_head: vec![], no_clean_end: vec![], prop: "C16".into(), wire_optional: true };
     RawCase { h2_side: Side::Server, base: b, spec, inject: Some(inj), probe_stream: 0, e_out_cap: None }
 }
 
@@ -1385,6 +1398,27 @@ pub fn check_c16(case: &RawCase, rr: &RawRun, tap: &Tap, out: &mut Outcome) {
     if item.starts_with("return:") && done {
         out.nontrivial = true;
         out.label("capacity-returned");
+    }
+    // (return / buffered waiter) a stream that had written its data blindly while another stream held the whole
+    // connection window: once that stream has given its capacity back, the buffered data goes out — the program does
+    // nothing more, so only the library can make that happen
+    if let Some(inj) = &case.inject {
+        for (sid, n) in &inj.must_deliver_streams {
+            if !done || rr.run.end != RunEnd::Quiescent {
+                continue;
+            }
+            out.label("buffered-waiter");
+            let on_wire: usize = tap.frames.iter().filter(|fr| fr.from == e && fr.raw.stream == *sid).filter_map(|fr| if let Ok(Frame::Data { data, .. }) = &fr.frame { Some(data.len()) } else { None }).sum();
+            let reset = tap.frames.iter().any(|fr| fr.raw.stream == *sid && matches!(&fr.frame, Ok(Frame::Rst { .. }))) || tap.frames.iter().any(|fr| matches!(&fr.frame, Ok(Frame::GoAway { .. })));
+            if on_wire < *n && !reset {
+                out.fail(
+                    "C16",
+                    "capacity/return",
+                    format!("C16/returned-capacity-does-not-flush-buffered-data/{}", &item[7.min(item.len())..]),
+                    format!("variant {}: stream {} had {} bytes buffered while another stream held the connection window; that stream gave its capacity back and the program went idle, yet only {} of the {} bytes reached the wire at quiescence", item, sid, n, on_wire, n),
+                );
+            }
+        }
     }
 }
 
